@@ -78,6 +78,16 @@ def build(run):
         "f->g,g->f (swap)": {f: g, g: f}, "A->B": {A: B}, "unmapped": {h: g}, "c0->f": {c0: f}, "tf->f": {tf: f},
         "u->grad(h)": {u: grad(h)},
     }
+    # images whose element contains P0 without being P0 (embedded sub-degree 0 < super-degree 1: lowest-order Nedelec / Raviart-Thomas,
+    # P0 enriched with a bubble): not cellwise constant, derivatives of the image must survive
+    import ufl.pullback as _pb
+    import ufl.sobolevspace as _sb
+    from ufv import elements as _El
+    _cell = t["msh"].ufl_cell()
+    w_ned = ufl.Coefficient(ufl.FunctionSpace(t["msh"], _El.FiniteElement("N1curl", _cell, 1, (2,), _pb.covariant_piola, _sb.HCurl, subdegree=0)))
+    h_enr = ufl.Coefficient(ufl.FunctionSpace(t["msh"], _El.FiniteElement("P0+bubble", _cell, 3, (), _pb.identity_pullback, _sb.L2, subdegree=0)))
+    maps["u->(sub-degree 0 vector)"] = {u: w_ned}
+    maps["f->(sub-degree 0 scalar)"] = {f: h_enr}
     for ename, e in exprs:
         for mname in maps:
             tag = f"replace/{ename}/{mname}"
